@@ -258,38 +258,33 @@ func genCompose(c *genCtx) error {
 		if err != nil {
 			return err
 		}
-		members := map[int][]int{}
-		for b := 0; b < 256; b++ {
-			members[ss.Classes[b]] = append(members[ss.Classes[b]], b)
+		mem := classMembers(ss)
+		conts := [][]byte{[]byte("5")}
+		if c.thorough() {
+			conts = [][]byte{[]byte("5"), []byte("0"), []byte(`"`)}
 		}
-		for si := range ss.States {
-			s := &ss.States[si]
-			if s.Out != "run" {
-				continue
+		parallelBases(sweepBases(ss, true, false, c.rng), c.st, c.rng, func(base sweepBase, rng *rand.Rand, st *genStats, w *sweepWorker) {
+			if base.st.Out != "run" {
+				return
 			}
-			pre := toBytes(s.Inp)
-			succ := map[int][]byte{}
-			for _, su := range s.Succ {
-				if su.Out == "run" {
-					succ[su.B] = toBytes(su.Comp)
-				}
+			if base.edge && !c.thorough() && rng.Intn(12) != 0 {
+				return
 			}
-			for cl, ms := range members {
-				b := ms[c.rng.Intn(len(ms))]
-				in := append(append([]byte{}, pre...), byte(b))
-				if comp, ok := succ[cl]; ok {
-					in = append(in, comp...)
-				} else if !c.thorough() && c.rng.Intn(3) != 0 {
-					continue
+			o := sweepOpts{allBytes: false, stop: false, rejectConts: conts}
+			forSweepInputs(ss, mem, base, o, rng, func(in []byte, viable bool) {
+				if !c.thorough() && !viable && rng.Intn(2) == 0 {
+					return
 				}
-				k := c.rng.Intn(len(progKinds))
-				runCompose(c.sw, &j, in, k, int64(c.rng.Intn(1<<30)), c.rng.Intn(2) == 0, c.st)
-				runCompose(c.sw, &j, in, 7, int64(c.rng.Intn(1<<30)), true, c.st)
-				if c.thorough() {
-					all(in)
+				k := rng.Intn(len(progKinds))
+				runCompose(c.sw, &w.j, in, k, int64(rng.Intn(1<<30)), rng.Intn(2) == 0, st)
+				runCompose(c.sw, &w.j, in, 7, int64(rng.Intn(1<<30)), true, st)
+				if c.thorough() && viable && !base.edge {
+					for k := range progKinds {
+						runCompose(c.sw, &w.j, in, k, int64(rng.Intn(1<<30)), rng.Intn(2) == 0, st)
+					}
 				}
-			}
-		}
+			})
+		})
 	}
 	var docs [][]byte
 	if c.want("walks") {
